@@ -413,7 +413,12 @@ func (x *Exec) choosePatterns(bvs []*Term, body *Term) [][]*Term {
 		}
 		if arith {
 			if len(vars) > 0 {
-				clean = false
+				// "variable +/- literal" stays usable inside a trigger (matching is syntactic, the goal has the same shape)
+				offset := (t.Op == "+" || t.Op == "-") && len(t.Args) == 2 && clean &&
+					((t.Args[0].Kind == kVar && t.Args[1].Kind == kLit) || (t.Args[1].Kind == kVar && t.Args[0].Kind == kLit && t.Op == "+"))
+				if !offset {
+					clean = false
+				}
 			}
 			return vars, size, clean, foreign
 		}
@@ -543,6 +548,18 @@ func (x *Exec) evalIdent(env *Env, name string) SV {
 	}
 	if env.fr != nil {
 		fi := x.info(env.fr.fn)
+		if len(name) > 4 && strings.HasPrefix(name, "iter") && strings.Trim(name[4:], "0123456789") == "" {
+			// iterK: the iteration counter of the (enclosing) range loop K
+			for _, lp := range fi.loops {
+				if fmt.Sprint(lp.ordinal) == name[4:] && lp.rangeCell != nil {
+					if ri, ok := env.st.cells[cellKey{env.fr.id, lp.rangeCell}]; ok {
+						return SV{T: Arith("+", ri, IntLit(1))}
+					}
+					specFail("%s: the index of loop %d is not live here", name, lp.ordinal)
+				}
+			}
+			specFail("%s: no such range loop", name)
+		}
 		if name == "iter" && env.loop != nil && env.loop.rangeCell != nil {
 			// (locals and the iteration counter do not exist in the old state: inside old(...) they keep their current value)
 			ri, ok := env.st.cells[cellKey{env.fr.id, env.loop.rangeCell}]
@@ -1315,7 +1332,15 @@ func (x *Exec) applySpec(env *Env, sf *SpecFunc, args []SV) SV {
 	x.specFrame(env, si, args, ats, app)
 	force := env.unfoldNext
 	env.unfoldNext = false
-	if sf.Body != nil && ((env.getFuel() > 0 && !sf.Opaque) || force) {
+	loops := false
+	if si.recursive && len(env.bound) > 0 {
+		for i, ch := range changingPositions(sf) {
+			if ch && i < len(args) && bareBound(args[i].T, env.bound) {
+				loops = true
+			}
+		}
+	}
+	if sf.Body != nil && !loops && ((env.getFuel() > 0 && !sf.Opaque) || force) {
 		f := env.getFuel()
 		env.fuel, env.fuelSet = f-1, true
 		body := evalBody(env)
@@ -1497,4 +1522,92 @@ func (x *Exec) closureAxiom(fn *ssa.Function, sym string) {
 		x.U.AddAxiom(sym, sd)
 	}
 	x.U.AddAxiom(sym, Forall(bvs, And(body...), []*Term{app}))
+}
+
+
+// changingPositions: parameter positions whose argument differs from the parameter itself in some recursive call of the body.
+func changingPositions(sf *SpecFunc) []bool {
+	out := make([]bool, len(sf.Params))
+	var walk func(e Expr)
+	walk = func(e Expr) {
+		switch e := e.(type) {
+		case *EUnary:
+			walk(e.X)
+		case *EBinary:
+			walk(e.X)
+			walk(e.Y)
+		case *ECond:
+			walk(e.C)
+			walk(e.A)
+			walk(e.B)
+		case *EField:
+			walk(e.X)
+		case *EIndex:
+			walk(e.X)
+			walk(e.I)
+		case *ESlice:
+			walk(e.X)
+			if e.Lo != nil {
+				walk(e.Lo)
+			}
+			if e.Hi != nil {
+				walk(e.Hi)
+			}
+		case *ECall:
+			if e.Fn == sf.Name && len(e.Args) == len(sf.Params) {
+				for i, a := range e.Args {
+					if id, ok := a.(*EIdent); !ok || id.Name != sf.Params[i].Name {
+						out[i] = true
+					}
+				}
+			}
+			for _, a := range e.Args {
+				walk(a)
+			}
+		case *EAssert:
+			walk(e.X)
+		case *EOld:
+			walk(e.X)
+		case *EQuant:
+			walk(e.Body)
+		case *ELet:
+			walk(e.Val)
+			walk(e.Body)
+		}
+	}
+	if sf.Body != nil {
+		walk(sf.Body)
+	}
+	return out
+}
+
+// bareBound: a bound variable occurs in t outside every uninterpreted function (i.e. only under arithmetic / ite): a
+// quantified unfolding triggered on such an argument re-triggers itself on the recursive call (matching loop).
+func bareBound(t *Term, bound []*Term) bool {
+	switch t.Kind {
+	case kVar:
+		for _, b := range bound {
+			if b.Op == t.Op {
+				return true
+			}
+		}
+		return false
+	case kApp:
+		switch t.Op {
+		case "+":
+			// "variable + positive literal": the unfolding mentions the function at the variable itself (or a smaller offset), which
+			// the trigger (the same offset shape) does not match again
+			if len(t.Args) == 2 && t.Args[0].Kind == kVar && t.Args[1].Kind == kLit && !strings.HasPrefix(t.Args[1].Op, "-") && !strings.HasPrefix(t.Args[1].Op, "(-") {
+				return false
+			}
+			fallthrough
+		case "-", "*", "ite", "to_real":
+			for _, a := range t.Args {
+				if bareBound(a, bound) {
+					return true
+				}
+			}
+		}
+	}
+	return false
 }
